@@ -170,7 +170,7 @@ func workerRules(c *Ctx) {
 		wIfs, wNil := nilEdgeOfFieldTest(q, "Worker.wg")
 		if q.need(closes, "PATH", "close(x.stop)") && len(wIfs) == 1 {
 			cl := closes[0]
-			q.add("PROV", "the watcher closes the stop channel", an.IsLoadOfField(callArg(cl, 0), "Worker.stop"), "close(x.stop)", cl)
+			q.add("PROV", "the watcher closes the stop channel", readsField(P, callArg(cl, 0), "Worker.stop"), "close(x.stop)", cl)
 			ok := q.onlyViaEdge(cl, wIfs[0], wNil[0])
 			q.add("PATH", "stop is closed only when no holder re-registered since the last look", ok,
 				pickS(ok, "close(stop) reachable only through x.wg == nil", "the stop channel can be closed while holders are registered (the taken wait group was not nil)"), cl)
@@ -195,7 +195,7 @@ func workerRules(c *Ctx) {
 			// <-done after close(stop); reset after <-done
 			recvs := an.AllInstrs(q.fn, func(in ssa.Instruction) bool {
 				u, ok := in.(*ssa.UnOp)
-				return ok && u.Op == token.ARROW && an.IsLoadOfField(u.X, "Worker.done")
+				return ok && u.Op == token.ARROW && readsField(P, u.X, "Worker.done")
 			})
 			if q.need(recvs, "PATH", "<-x.done") {
 				q.add("PATH", "the watcher waits for the instance to exit after telling it to stop", P.Before(q.fn, an.Is(cl), recvs[0]), "close(stop) dominates <-done", recvs[0])
@@ -268,4 +268,22 @@ func init() {
 			floorKey("G Worker", 6, "G/(*Worker)"),
 		},
 	})
+}
+
+// readsField: v is a read of the field - directly, or through a parameter of a function that is started / called at
+// one place only with such a read as the argument (go x.wait(x.stop, x.done)).
+func readsField(P *an.Prog, v ssa.Value, field string) bool {
+	if an.IsLoadOfField(v, field) {
+		return true
+	}
+	srcs := P.SourcesDeep(v)
+	if len(srcs) == 0 {
+		return false
+	}
+	for _, s := range srcs {
+		if !an.IsLoadOfField(s, field) {
+			return false
+		}
+	}
+	return true
 }
